@@ -1,7 +1,278 @@
-//! stub
-use serde_json::Value;
-use crate::engine::Ctx;
-pub const RULE: &str = "";
-pub const ASSUMPTIONS: &[&str] = &[];
-pub fn run(_ctx: &Ctx) {}
-pub fn replay(_part: &str, _case: &Value) -> Result<(), String> { Err("not implemented".into()) }
+//! C09 — controller data transfers are complete, ordered, correctly offset and counted.
+
+use std::cell::RefCell;
+use std::rc::Rc;
+
+use flipdot::{Address, Page, Sign};
+use flipdot_core::{Message, SignBus};
+use proptest::prelude::*;
+use serde::{Deserialize, Serialize};
+use serde_json::{json, Value};
+
+use crate::engine::{catch, h64, par_range, run_generated, Ctx, Stats};
+use crate::oracle::vsign::*;
+use crate::repr::M;
+
+pub const RULE: &str = "transfers recorded by a cooperative recording bus (acknowledges requests, silent on data, answers each transfer's state query from a generated verdict list failed/received so that 0, 1, 2 retries and the give-up case occur): configure for all 11 sign types and send_pages with 0..6 pages whose sizes are generated independently of the sign's own size from one chunk (16 bytes) to 4096 chunks (65536 bytes, last offset 65520), contents pseudo-random, addresses across the 16-bit range. The transcript is parsed attempt by attempt (request+ack, data chunks, count, state query) and each attempt's chunk list must equal, element for element, the list computed from the inputs (per item: offsets 0,16,32,..., <= 16 bytes each, concatenation = the item), the announced count must equal the number of chunks of that attempt, and the state query must come only after the count; the configuration item must equal an independent copy of the type's 16-byte block. Non-trivial = >= 2 pages, or a page size different from the sign's, or >= 1 retry; distinct by hash of the case";
+pub const ASSUMPTIONS: &[&str] = &[
+    "total chunks per attempt are kept <= 65535 because the count travels in a 16-bit field; beyond that the property is unsatisfiable by any implementation",
+    "how many attempts occur is C10/C11's subject; every attempt that does occur is checked",
+];
+
+#[derive(Serialize, Deserialize, Debug, Clone, PartialEq, Eq, Hash)]
+pub struct TransferCase {
+    pub addr: u16,
+    pub sign_type: u8,
+    /// None = configure; Some(list of page sizes in chunks) = send_pages
+    pub pages: Option<Vec<u16>>,
+    pub seed: u64,
+    /// verdict for each attempt's state query: true = received, false = failed
+    pub verdicts: Vec<bool>,
+}
+
+struct Recorder {
+    own: u16,
+    verdicts: Vec<bool>,
+    attempt: usize,
+    log: Vec<(M, Option<M>)>,
+    last_transfer_op: u8,
+}
+
+impl SignBus for Recorder {
+    fn process_message<'a>(&mut self, message: Message<'_>) -> Result<Option<Message<'a>>, Box<dyn std::error::Error + Send + Sync>> {
+        let m = M::from_message(&message);
+        if self.log.len() > 300_000 {
+            return Err("harness call cap".into());
+        }
+        let after_count = matches!(self.log.last(), Some((M::Count(_), _)));
+        let reply = match &m {
+            M::Hello(_) => Some(M::Report(self.own, S_UNCONFIGURED)),
+            M::Req(_, o) => {
+                if *o == O_RECEIVE_CONFIG || *o == O_RECEIVE_PIXELS {
+                    self.last_transfer_op = *o;
+                }
+                Some(M::Ack(self.own, *o))
+            }
+            M::Query(_) if after_count => {
+                let ok = self.verdicts.get(self.attempt).copied().unwrap_or(true);
+                self.attempt += 1;
+                let (succ, failed) = if self.last_transfer_op == O_RECEIVE_CONFIG { (S_CONFIG_RECEIVED, S_CONFIG_FAILED) } else { (S_PIXELS_RECEIVED, S_PIXELS_FAILED) };
+                Some(M::Report(self.own, if ok { succ } else { failed }))
+            }
+            M::Query(_) => Some(M::Report(self.own, S_PAGE_LOADED)),
+            _ => None,
+        };
+        self.log.push((m, reply.clone()));
+        Ok(reply.map(|r| r.to_message()))
+    }
+}
+
+fn page_dims(chunks: u16) -> (u32, u32) {
+    // height 8 -> one byte per column; data = 4 + w; padded to 16*chunks
+    ((chunks as u32) * 16 - 4, 8)
+}
+
+pub fn check_transfer(c: &TransferCase, st: &mut Stats) -> Result<(), String> {
+    let (sign_type, _, _, sw, sh) = TYPES[c.sign_type as usize % 11];
+    let rec = Rc::new(RefCell::new(Recorder { own: c.addr, verdicts: c.verdicts.clone(), attempt: 0, log: vec![], last_transfer_op: 0 }));
+    let sign = Sign::new(rec.clone(), Address(c.addr), sign_type);
+    // inputs
+    let items: Vec<Vec<u8>> = match &c.pages {
+        None => vec![BLOCKS[c.sign_type as usize % 11].to_vec()],
+        Some(sizes) => sizes
+            .iter()
+            .enumerate()
+            .map(|(p, &chunks)| (0..(chunks.max(1) as usize) * 16).map(|i| h64(&(c.seed, p as u64, i as u64)) as u8).collect())
+            .collect(),
+    };
+    let total_chunks: usize = items.iter().map(|i| (i.len() + 15) / 16).sum();
+    if total_chunks > 65535 {
+        st.class("skipped:more-than-65535-chunks");
+        return Ok(()); // outside the domain (16-bit count)
+    }
+    let r = match &c.pages {
+        None => catch(|| sign.configure().map(|_| ()).map_err(|e| format!("{e:?}"))),
+        Some(sizes) => {
+            let pages: Vec<Page<'_>> = sizes
+                .iter()
+                .zip(items.iter())
+                .map(|(&chunks, bytes)| {
+                    let (w, h) = page_dims(chunks.max(1));
+                    Page::from_bytes(w, h, &bytes[..]).expect("harness builds pages of the padded size")
+                })
+                .collect();
+            catch(|| sign.send_pages(&pages).map(|_| ()).map_err(|e| format!("{e:?}")))
+        }
+    }
+    .map_err(|p| format!("the controller panicked during the transfer: {p}"))?;
+    st.eval();
+    let log = &rec.borrow().log;
+    let op = if c.pages.is_none() { O_RECEIVE_CONFIG } else { O_RECEIVE_PIXELS };
+
+    // expected chunk list of one attempt
+    let mut expected: Vec<M> = vec![];
+    for item in &items {
+        let mut off = 0usize;
+        while off < item.len() {
+            let end = (off + 16).min(item.len());
+            expected.push(M::Data { off: off as u16, data: item[off..end].to_vec() });
+            off = end;
+        }
+    }
+
+    // parse attempts
+    let mut i = 0usize;
+    // skip the reset/hello prefix of configure
+    while i < log.len() && log[i].0 != M::Req(c.addr, op) {
+        if matches!(log[i].0, M::Data { .. } | M::Count(_)) {
+            return Err(format!("{} was sent before the sign acknowledged the receive request", log[i].0.short()));
+        }
+        i += 1;
+    }
+    let mut attempts = 0usize;
+    while i < log.len() && log[i].0 == M::Req(c.addr, op) {
+        attempts += 1;
+        if log[i].1 != Some(M::Ack(c.addr, op)) {
+            return Err("harness error: recorder did not acknowledge".into());
+        }
+        i += 1;
+        let start = i;
+        while i < log.len() && matches!(log[i].0, M::Data { .. }) {
+            i += 1;
+        }
+        let got: Vec<&M> = log[start..i].iter().map(|(m, _)| m).collect();
+        if got.len() != expected.len() || got.iter().zip(expected.iter()).any(|(a, b)| *a != b) {
+            let k = got.iter().zip(expected.iter()).take_while(|(a, b)| **a == *b).count();
+            return Err(format!(
+                "attempt {attempts}: chunk {k} is {} but the items prescribe {} ({} chunks sent, {} prescribed)",
+                got.get(k).map(|m| describe_chunk(m)).unwrap_or_else(|| "missing".into()),
+                expected.get(k).map(describe_chunk).unwrap_or_else(|| "nothing more".into()),
+                got.len(),
+                expected.len()
+            ));
+        }
+        match log.get(i).map(|x| &x.0) {
+            Some(M::Count(n)) => {
+                if *n as usize != got.len() {
+                    return Err(format!("attempt {attempts}: announced {n} chunks but sent {} since the request", got.len()));
+                }
+            }
+            other => {
+                return Err(format!(
+                    "attempt {attempts}: after the chunks the controller sent {:?} instead of the chunk count",
+                    other.map(|m| m.short())
+                ))
+            }
+        }
+        i += 1;
+        match log.get(i).map(|x| &x.0) {
+            Some(M::Query(a)) if *a == c.addr => {}
+            other => return Err(format!("attempt {attempts}: the chunk count was followed by {:?} instead of the state query", other.map(|m| m.short()))),
+        }
+        i += 1;
+    }
+    if attempts == 0 {
+        return Err(format!("no transfer attempt was made (result {r:?})"));
+    }
+    // nothing data-like outside the attempts
+    for (m, _) in &log[i..] {
+        if matches!(m, M::Data { .. } | M::Count(_)) {
+            return Err(format!("{} was sent outside a transfer attempt", m.short()));
+        }
+    }
+    let retries = attempts - 1;
+    let odd_size = c.pages.as_ref().map(|s| s.iter().any(|&ch| (ch.max(1) as usize) * 16 != crate::oracle::page::total_len(sw, sh))).unwrap_or(false);
+    let many = c.pages.as_ref().map(|s| s.len() >= 2).unwrap_or(false);
+    if retries >= 1 || odd_size || many {
+        st.nontrivial(h64(c));
+    }
+    st.class(&format!("attempts:{attempts}"));
+    st.class(if c.pages.is_none() { "configure" } else { "send_pages" });
+    if let Some(s) = &c.pages {
+        if s.iter().any(|&ch| ch >= 4096) {
+            st.class("page-at-16-bit-offset-limit");
+        }
+        if s.is_empty() {
+            st.class("empty-page-list");
+        }
+    }
+    if st.want_sample() && (retries >= 1 || many) {
+        st.sample(json!({"addr": c.addr, "type": format!("{sign_type:?}"), "page_sizes_in_chunks": c.pages, "verdicts": c.verdicts, "attempts": attempts, "chunks_per_attempt": expected.len()}));
+    }
+    Ok(())
+}
+
+fn describe_chunk(m: &M) -> String {
+    match m {
+        M::Data { off, data } => format!("SendData(offset {off}, {} bytes, first {:02X?})", data.len(), &data[..data.len().min(4)]),
+        other => other.short(),
+    }
+}
+
+fn verdict_strategy() -> impl Strategy<Value = Vec<bool>> {
+    prop_oneof![
+        5 => Just(vec![true]),
+        3 => Just(vec![false, true]),
+        3 => Just(vec![false, false, true]),
+        2 => Just(vec![false, false, false]),
+        1 => Just(vec![false, false, false, false, true]),
+    ]
+}
+
+fn case_strategy(max_pages: usize, big: bool) -> impl Strategy<Value = TransferCase> {
+    let size = if big {
+        prop_oneof![6 => 1u16..=12, 2 => Just(1u16), 2 => Just(2u16), 1 => proptest::sample::select(vec![255u16, 256, 257, 1000, 4095, 4096])].boxed()
+    } else {
+        prop_oneof![6 => 1u16..=12, 2 => Just(1u16), 2 => Just(2u16), 1 => proptest::sample::select(vec![64u16, 255, 256, 257])].boxed()
+    };
+    (
+        prop_oneof![2 => proptest::sample::select(vec![0u16, 3, 0x7F, 0x100, 0xFFFF]), 1 => any::<u16>()],
+        0u8..11,
+        prop_oneof![1 => Just(None), 5 => proptest::collection::vec(size, 0..=max_pages).prop_map(Some)],
+        any::<u64>(),
+        verdict_strategy(),
+    )
+        .prop_map(|(addr, sign_type, pages, seed, verdicts)| TransferCase { addr, sign_type, pages, seed, verdicts })
+}
+
+pub fn run(ctx: &Ctx) {
+    // systematic: configure for every type x every verdict pattern; the sign's own page size x 0..3 pages
+    let verdicts: Vec<Vec<bool>> = vec![vec![true], vec![false, true], vec![false, false, true], vec![false, false, false]];
+    par_range(ctx, "all-types", 11, |t, st| {
+        let (_, _, _, w, h) = TYPES[t as usize];
+        let own_chunks = (crate::oracle::page::total_len(w, h) / 16) as u16;
+        for (vi, v) in verdicts.iter().enumerate() {
+            for addr in [0u16, 3, 0xFFFF] {
+                let c = TransferCase { addr, sign_type: t as u8, pages: None, seed: 0, verdicts: v.clone() };
+                check_transfer(&c, st).map_err(|m| (serde_json::to_value(&c).unwrap(), m))?;
+                for n in 0..=3usize {
+                    let c = TransferCase { addr, sign_type: t as u8, pages: Some(vec![own_chunks; n]), seed: (t * 10 + vi as u64) as u64, verdicts: v.clone() };
+                    check_transfer(&c, st).map_err(|m| (serde_json::to_value(&c).unwrap(), m))?;
+                }
+            }
+        }
+        Ok(())
+    });
+    ctx.part_done("all-types", true, json!("11 types x 4 verdict patterns x 3 addresses x (configure + 0..3 pages of the sign's size)"));
+
+    // the 16-bit offset limit: one 65536-byte page, alone and with neighbours
+    par_range(ctx, "offset-limit", 4, |k, st| {
+        let pages = match k {
+            0 => vec![4096u16],
+            1 => vec![4096, 1],
+            2 => vec![1, 4096, 2],
+            _ => vec![4095, 4096],
+        };
+        let c = TransferCase { addr: 0x0102, sign_type: 5, pages: Some(pages), seed: k, verdicts: vec![k % 2 == 0, true] };
+        check_transfer(&c, st).map_err(|m| (serde_json::to_value(&c).unwrap(), m))
+    });
+    ctx.part_done("offset-limit", true, json!("pages of 4096 chunks (last offset 65520), alone and next to small pages"));
+
+    run_generated(ctx, "generated", ctx.tier.pick(100_000, 2_000_000), || case_strategy(6, false), |c, st| check_transfer(c, st));
+    run_generated(ctx, "generated-large-pages", ctx.tier.pick(2_000, 40_000), || case_strategy(4, true), |c, st| check_transfer(c, st));
+}
+
+pub fn replay(_part: &str, case: &Value) -> Result<(), String> {
+    let c: TransferCase = serde_json::from_value(case.clone()).map_err(|e| format!("bad case: {e}"))?;
+    check_transfer(&c, &mut Stats::new())
+}
